@@ -2,6 +2,8 @@
 //! vharness <prop> replay <file>                                   — re-run the cases of a file, print lines
 mod common;
 mod c10;
+mod jws;
+mod jws_storage;
 mod c11;
 mod c12;
 mod c13;
@@ -21,6 +23,8 @@ struct Prop {
 
 fn props() -> Vec<Prop> {
   vec![
+    Prop { id: "C01", exec: jws::exec, classify: no_class, gen: jws::gen_c01 },
+    Prop { id: "C08", exec: jws::exec, classify: no_class, gen: jws::gen_c08 },
     Prop { id: "C10", exec: c10::exec, classify: c10::classify, gen: c10::gen },
     Prop { id: "C11", exec: c11::exec, classify: no_class, gen: c11::gen },
     Prop { id: "C12", exec: c12::exec, classify: no_class, gen: c12::gen },
